@@ -732,6 +732,11 @@ func (e *vlEnv) runCase(w *bufio.Writer) {
 			nb.BlockHash()
 			oldRoot := append([]byte{}, cs.sdb.GetRoot()...)
 			oldBest, _ := cs.GetBestBlock()
+			// the voting-power rank is a process global (F12): the producer run above has mutated it; a validating
+			// node starts from its committed state
+			if scs0, e0 := statedb.GetSystemAccountState(cs.sdb.OpenNewStateDB(cs.sdb.GetRoot())); e0 == nil {
+				system.InitVotingPowerRank(scs0)
+			}
 			err := cs.addBlock(nb, nil, testPeer)
 			nowBest, _ := cs.GetBestBlock()
 			end.BestNo = nowBest.BlockNo()
